@@ -230,12 +230,33 @@ def pmap(func, items, procs=None, chunksize=1):
             yield it, out
 
 
+_WORKER_HISTORY = []  # items this process has executed so far (a forked pool worker runs many instances in a row)
+HISTORY_CAP = 300
+
+
+def _jsonable(x):
+    try:
+        json.dumps(x)
+        return True
+    except (TypeError, ValueError):
+        return False
+
+
 def _guard(func, it):
     try:
         t = time.time()
         out = func(it)
         if isinstance(out, dict):
             out["wall_s"] = time.time() - t
+            if out.get("candidates") and _jsonable(it):
+                # a discrepancy may depend on what ran before in the same process (state remembered by the
+                # library between calls): keep the worker's history so that the replay can re-create it
+                hist = [h for h in _WORKER_HISTORY[-HISTORY_CAP:] if _jsonable(h)]
+                for c in out["candidates"]:
+                    if isinstance(c.get("inputs"), dict):
+                        c["inputs"]["_item"] = it
+                        c["inputs"]["_history"] = hist
+        _WORKER_HISTORY.append(it)
         return out
     except Exception:
         r = Result(it)
@@ -255,8 +276,8 @@ class _Guard:
 # finishing a run: replay candidates, print lines, write evidence
 
 
-def run_replay_subprocess(pid, path, timeout=300):
-    cmd = [sys.executable, "-m", "vf.run", pid, "--replay", path]
+def run_replay_subprocess(pid, path, timeout=300, history=False):
+    cmd = [sys.executable, "-m", "vf.run", pid, "--replay", path] + (["--history"] if history else [])
     env = dict(os.environ)
     env["PYTHONPATH"] = VERIF + os.pathsep + env.get("PYTHONPATH", "")
     p = subprocess.run(cmd, cwd=VERIF, env=env, capture_output=True, text=True, timeout=timeout)
@@ -294,6 +315,22 @@ def finish(ctx, replay_in_process=None):
                 known.append((f, c))
             else:
                 violations.append((path, c, out))
+        elif rc == NOT_REPRODUCED and c.get("inputs", {}).get("_history") and not c.get("inputs", {}).get("abstract"):
+            # not reproducible from a fresh process: replay the worker's history (the same sequence of operations in
+            # one process) and look for the same discrepancy at its end
+            try:
+                rc2, out2 = run_replay_subprocess(ctx.pid, path, timeout=900, history=True)
+            except Exception as e:
+                rc2, out2 = -1, f"history replay failed to run: {e!r}"
+            if rc2 == REPRODUCED:
+                c["what"] = c["what"] + f"  [reproduces only after the {len(c['inputs']['_history'])} preceding operations of the same process: state is carried between calls]"
+                f = match_finding(findings, ctx.pid, c["key"], c["clause"])
+                if f is not None:
+                    known.append((f, c))
+                else:
+                    violations.append((path, c, out2))
+            else:
+                notrepro.append((path, c, out + " | history replay: " + out2[-200:]))
         elif rc == NOT_REPRODUCED:
             notrepro.append((path, c, out))
         else:
